@@ -352,8 +352,14 @@ func (n *pnode) build(ctx context.Context) *fun.Iterator[int] {
 			parts = append(parts, rest[:c])
 			rest = rest[c:]
 		}
-		if n.K == 0 {
-			parts = append(parts, nil) // an empty slice among them
+		switch n.K {
+		case 0:
+			parts = append(parts, nil) // an empty slice at the end
+		case 1:
+			parts = append([][]int{{}}, parts...) // at the front
+		case 2:
+			mid := len(parts) / 2 // in the middle, followed by more input
+			parts = append(parts[:mid:mid], append([][]int{nil, {}}, parts[mid:]...)...)
 		}
 		return itertool.MergeSlices(parts...)
 	}
